@@ -39,4 +39,103 @@ PROPS = {
         'nontrivial': ['C09.from_symbol', 'C09.from_scale', 'C09.iter_exact'],
         'rule': 'all units of all registered types (catalogue, astronomical, fixtures, model registry); look-up keys: every declared symbol, case-flipped / one-edit near misses, random strings; every declared scale, its neighbours and special values',
     },
+    'C02': {
+        'mc': [],
+        'drivers': drv('c02'),
+        'clauses': ['C02.'],
+        'must_hit': ['C02.same', 'C02.order', 'C02.sym', 'C02.consistent'],
+        'nontrivial': ['C02.order', 'C02.sym'],
+        'rule': 'all types with reference unit x all ordered unit pairs x amount pairs built to be equal by construction in exact arithmetic, their neighbours (next float up/down, +-1e-18), clearly separated pairs, mixed signs, zero; NaN/inf pairs for the consistency clauses; every event carries the seven answers in both operand orders',
+    },
+    'C03': {
+        'mc': [],
+        'drivers': drv('c03'),
+        'clauses': ['C03.'],
+        'must_hit': ['C03.unit', 'C03.same', 'C03.mag', 'C03.ratio'],
+        'nontrivial': ['C03.mag', 'C03.ratio'],
+        'rule': 'all types with reference unit x all ordered unit pairs x amount pairs (equal magnitudes in different units, cancelling pairs, separated, random) x {+,-,/}',
+    },
+    'C04': {
+        'mc': [],
+        'drivers': drv('c04'),
+        'clauses': ['C04.'],
+        'must_hit': ['C04.borrow', 'C04.mag'],
+        'nontrivial': ['C04.mag'],
+        'rule': 'every derived operator instance generated from the declared derivations (catalogue 34, astronomical 4, fixtures, model registry) x all operand unit pairs x amount pairs; owned and the three borrowed forms',
+    },
+    'C05': {
+        'mc': [],
+        'drivers': drv('c05') + drv('c04'),
+        'clauses': ['C05.'],
+        'must_hit': ['C05.unit_of_result', 'C05.ref_in_ref_out', 'C05.natural', 'C05.fit', 'C05.fit_direct', 'C05.fit_amount'],
+        'nontrivial': ['C05.natural', 'C05.fit', 'C05.fit_direct'],
+        'rule': 'every derived operator instance x all operand unit pairs x amounts chosen so that the result magnitude lands on, one step below and one step above every unit scale of the result type, zero and negative results; plus direct _fit(m) sweeps over the same magnitudes',
+    },
+    'C08': {
+        'mc': [],
+        'drivers': drv('c08') + drv('units'),
+        'clauses': ['C08.'],
+        'must_hit': ['C08.new', 'C08.scalar', 'C08.amount_type'],
+        'nontrivial': ['C08.new', 'C08.scalar'],
+        'rule': 'every type (with reference unit, without, single-unit, dimensionless) x every unit x amounts incl. +-0, +-inf, NaN, subnormal, MAX (f64) / extreme coefficients (Decimal) x {new, amount*unit, unit*amount, k*q, q*k, q/k}',
+    },
+    'C10': {
+        'mc': [],
+        'drivers': drv('c10'),
+        'clauses': ['C10.'],
+        'must_hit': ['C10.eq', 'C10.unordered', 'C10.same', 'C10.panic'],
+        'nontrivial': ['C10.unordered', 'C10.panic', 'C10.eq'],
+        'rule': 'Temperature, fixtures and model types without reference unit, single-unit types x all ordered unit pairs x amount pairs (equal amounts in different units included) x {==,<,...,+,-,/}; panics caught at the harness boundary and recorded',
+    },
+    'C13': {
+        'mc': [],
+        'drivers': drv('c13'),
+        'clauses': ['C13.'],
+        'must_hit': ['C13.components', 'C13.reciprocal', 'C13.unit', 'C13.value', 'C13.via_reciprocal', 'C13.inverse'],
+        'nontrivial': ['C13.value', 'C13.inverse'],
+        'rule': 'ordered pairs of quantity types from a representative set (with reference unit, dimensionless amount, single-unit, no-reference) x all term / per / operand units x amounts with per-multiples that are not powers of ten; rate*q, q*rate, q/rate, the same through the reciprocal, and there-and-back',
+    },
+    'C14': {
+        'mc': [],
+        'drivers': drv('c14'),
+        'clauses': ['C14.'],
+        'must_hit': ['C14.same_unit', 'C14.first_row', 'C14.no_entry', 'C14.temperature_covers', 'C14.temperature_physical'],
+        'nontrivial': ['C14.first_row', 'C14.no_entry', 'C14.temperature_physical'],
+        'rule': 'ConversionTable<_, N>, N in 0..8, rows drawn by VERIF_SEED (duplicates, missing pairs) over types without reference unit x all unit pairs; the predefined TEMPERATURE_CONVERTER x 9 unit pairs x temperatures incl. fixed points',
+    },
+    'C15': {
+        'mc': [],
+        'drivers': drv('c15'),
+        'clauses': ['C15.'],
+        'must_hit': ['C15.layout', 'C15.sign', 'C15.width', 'C15.align', 'C15.parse_back', 'C15.prec_digits', 'C15.prec_rounded', 'C15.unit_display', 'C15.rate_display', 'C15.unitless', 'C15.symbol_resolves'],
+        'nontrivial': ['C15.width', 'C15.prec_rounded', 'C15.parse_back'],
+        'rule': 'all units of all types x amounts of every sign / magnitude class (negative, negative zero, rounds to zero, rounds across a digit boundary, 17 significant / 18 fractional digits, huge) x format specifications: every (plus, align, fill incl. non-ASCII) combination with rotating widths 0..40 and precisions none / 0..20, plus seeded random specifications',
+    },
+    'C16': {
+        'mc': [],
+        'drivers': [{'drv': 'c16', 'reg': 'cat', 'bes': ['f64'], 'args': []}],
+        'clauses': ['C16.'],
+        'must_hit': ['C16.iter', 'C16.entry', 'C16.from_exp', 'C16.from_abbr'],
+        'nontrivial': ['C16.from_exp', 'C16.from_abbr', 'C16.entry'],
+        'exhaustive': True,
+        'rule': 'all 25 prefixes; all 256 values of i8; all strings of length <= 2 over the abbreviation alphabet plus foreign characters (u, Greek mu, K, ...), prefix names, seeded random strings',
+    },
+    'C17': {
+        'mc': [],
+        'drivers': drv('c17', regs=['cat']),
+        'clauses': ['C17.'],
+        'must_hit': ['C17.unit_variant', 'C17.tree_unit', 'C17.tree_amount', 'C17.roundtrip_tree', 'C17.roundtrip_text', 'C17.unit_roundtrip'],
+        'nontrivial': ['C17.roundtrip_text', 'C17.roundtrip_tree'],
+        'rule': 'all units of all catalogue types x adversarial finite amounts (17 significant digits, 18 fractional digits, MIN_POSITIVE, MAX, +-0, i128-wide coefficients) through serde_json::Value and JSON text (float_roundtrip parser)',
+    },
+    'C18': {
+        'mc': [],
+        'drivers': (drv('c18')
+                    + [dict(d, only='thorough') for n in ('c01', 'c02', 'c03', 'c04', 'c05', 'c08', 'c13', 'c14', 'c15') for d in drv(n, regs=['cat'])]
+                    + [d for n in ('c01', 'c03', 'c04', 'c05', 'c13', 'c15') for d in drv(n, regs=['fx', 'core'])]),
+        'clauses': ['C18.'],
+        'must_hit': ['C18.total.convert', 'C18.total.cmp', 'C18.total.arith', 'C18.total.derived', 'C18.total.fit', 'C18.total.rate', 'C18.total.format', 'C18.total.scalar'],
+        'nontrivial': ['C18.total.convert', 'C18.total.cmp', 'C18.total.arith', 'C18.total.derived', 'C18.total.rate'],
+        'rule': 'special-value sweep: every operation x unit pairs x {+-0, subnormal, +-MAX, +-inf, NaN}^2 (f64) / amounts at and beyond the edges of the decimal range predicate (Decimal; the specification decides exactly which events are inside the claim), plus the C18.total clauses evaluated on the traces of C01-C05, C08, C13-C15 (quick: fixture and model registries; thorough: the whole catalogue)',
+    },
 }
